@@ -359,6 +359,11 @@ package vm
 //@ like template.evalStmt
 //@ requires stmt != nil
 //@ ensures [C08] nosentinel: runInfo.err != ErrBreak && runInfo.err != ErrContinue && runInfo.err != ErrReturn
+// C10: delete(m, k) removes exactly the (converted, hashable) key from the map m denotes; a key that cannot be converted or
+// hashed is an error and the map is not written
+//@ traces (reflect.Value).SetMapIndex
+//@ ensures [C10] untouched: runInfo.err != nil ==> (forall k int :: 0 <= k && k < ncalls() ==> !calleeIs(k, "(reflect.Value).SetMapIndex"))
+//@ ensures [C10 C20] deleted: (forall k int :: 0 <= k && k < ncalls() && calleeIs(k, "(reflect.Value).SetMapIndex") ==> arg(k) == unwrap(res2(0)) && hashableKey(res(k)) && !rvValid(res2(k)))
 
 //@ func (*runInfoStruct).runCloseStmt
 //@ props C04 C08 C02
